@@ -371,7 +371,13 @@ def m3u_stage(chk):
             tree = gen_tree(rng, root)
             build(tree, str(root))
             base = root / "inside"
-            provider = files_child.make_provider({"ext": ".m3u8"}, base)
+            # m3u/base_dir (where relative track paths inside playlists are looked up; the shipped
+            # default is the music directory) is NOT a place for playlists: configure it to
+            # something else than the playlists dir in most runs
+            base_dir_cfg = rng.choice([None, root / "outside", root / "outside", root, root / "outside" / "sub"])
+            chk.dist("m3u:base_dir=" + ("playlists_dir" if base_dir_cfg is None else
+                                         "<R>/" + str(base_dir_cfg.relative_to(root)) if base_dir_cfg != root else "<R>"))
+            provider = files_child.make_provider({"ext": ".m3u8", "base_dir": None if base_dir_cfg is None else str(base_dir_cfg)}, base)
             fs_name = f"fs{ti}"
             fs_term = g_fs(tree, root)
             base_c = g_path(comps_of(base))
@@ -457,7 +463,8 @@ def m3u_stage(chk):
                                                         or (t[1] in cdirs and t[2].startswith(b"tmp"))))]
                 effects = [t for t in touches if t in rec.effects]
                 monitors_m3u(chk, op, uri, cls, root, base, before, after, effects, res, ti, tree,
-                             new_name if op == "save_rename" else None)
+                             new_name if op == "save_rename" else None,
+                             "playlists_dir" if base_dir_cfg is None else str(base_dir_cfg).replace(str(root), "<R>"))
                 mop = {"create": f"m3u_create fs base (create_component {g_name(os.fsencode(create_name.strip()))} "
                                  f"{g_name(b'.m3u8')})",
                        "as_list": "m3u_as_list fs base",
@@ -558,11 +565,11 @@ def classify_path(p, base):
     return link_outside, is_base
 
 
-def monitors_m3u(chk, op, uri, cls, root, base, before, after, touches, res, ti, tree, new_name=None):
+def monitors_m3u(chk, op, uri, cls, root, base, before, after, touches, res, ti, tree, new_name=None, base_dir_note=None):
     """`touches`: the recorded calls that SUCCEEDED (effects)."""
     base_b = os.fsencode(str(base))
     link_outside, is_base = cls
-    case = {"op": op, "uri": uri.replace(str(root), "<R>"), "new_name": new_name,
+    case = {"op": op, "uri": uri.replace(str(root), "<R>"), "new_name": new_name, "m3u_base_dir": base_dir_note,
             "tree": sorted("/".join(q) + ("@" if k == "L" else "/" if k == "D" else "") for q, k in all_paths(tree, []))[:40]}
 
     def inside(d):
